@@ -11,6 +11,8 @@ up in `STATE`, which the harness fills before each simulation:
     probes    key paths every probe reads through builder.configuration in setup
     attempts  [[name, path, value, how]] writes tried from setup
     delete / deleter   F18 probe
+    setup_boom  name of the probe whose `setup` raises ProbeBoom (after logging); node spec "boom": "sub" / "defs" makes
+                the `sub_components` / `configuration_defaults` property of that probe raise
     read / write / delete_fn   helper callables supplied by the harness
 """
 from __future__ import annotations
@@ -74,6 +76,12 @@ def _nest(pairs):
     return out
 
 
+class ProbeBoom(Exception):
+    """raised ON PURPOSE by a probe (lesson 16): by its `sub_components` / `configuration_defaults` property (node spec
+    "boom": "sub" / "defs") or at the end of its `setup` (state "setup_boom" = name); the harness catches it where a caller
+    could and carries on with the same context"""
+
+
 class Probe(Component):
     """defaults through the `configuration_defaults` property"""
 
@@ -92,6 +100,8 @@ class Probe(Component):
 
     @property
     def configuration_defaults(self):
+        if self.spec.get("boom") == "defs":
+            raise ProbeBoom(f"configuration_defaults of {self.name}")
         if self.spec.get("defs") == "property_same":          # the SAME dict object on every access
             if self._same is None:
                 self._same = _nest(self.spec["d"])
@@ -110,6 +120,8 @@ class Probe(Component):
     @property
     def sub_components(self):
         self.accesses += 1
+        if self.spec.get("boom") == "sub":
+            raise ProbeBoom(f"sub_components of {self.name}")
         kind = self.spec.get("sub", "list")
         holes = self.spec.get("holes") or []
         if kind == "fresh":                       # created lazily, NEW objects on every access
@@ -136,6 +148,8 @@ class Probe(Component):
         st["handles"].append(builder.configuration)
         if st.get("deleter") == self.name and st.get("delete"):
             st.setdefault("deleted", []).append([self.name, st["delete"][0], st["delete_fn"](builder.configuration, *st["delete"])])
+        if st.get("setup_boom") == self.name:     # after it has logged, read and tried its writes
+            raise ProbeBoom(f"setup of {self.name}")
 
 
 def with_holes(seq, holes):
@@ -323,3 +337,5 @@ class ProbeManager(Manager):
         seen = [st["read"](builder.configuration, p) for p in st["probes"]]
         tried = [[self.name, p, st["write"](builder.configuration, p, v, how)] for n, p, v, how in st["attempts"] if n == self.name]
         st["log"].append(["optmgr", self.name, seen, tried])
+        if st.get("setup_boom") == self.name:
+            raise ProbeBoom(f"setup of manager {self.name}")
